@@ -438,6 +438,13 @@ impl Monitor for C18 {
         if let Some((Side::S, p)) = &rec.delivered {
             if let Some(Operations::Finished(f)) = op_of(p) {
                 self.fin_delivered = Some(format!("{:?}/{:?}", f.condition, f.delivery_code));
+                if scn.closure {
+                    ctx.arm("finished-delivered-to-sender");
+                    // whatever phase the sender is in, the receiver's outcome reaches its user
+                    if !rec.inds.iter().any(|(s2, i2)| *s2 == Side::S && matches!(i2, Indication::Finished(_))) {
+                        ctx.flag("finished-not-reported", format!("{}", rec.obs.s_sub), format!("closure: the Finished PDU {} reached the sender (sub-state {}) but no Finished indication was raised ({:?})", pdu_brief(p), rec.obs.s_sub, rec.err));
+                    }
+                }
             }
         }
         for (side, i) in &rec.inds {
@@ -692,6 +699,9 @@ pub struct C19 {
 impl Monitor for C19 {
     fn step(&mut self, rec: &StepRec, ctx: &mut Ctx) {
         self.c02.step(rec, ctx);
+        if let Ev::Blackout(_) = rec.ev {
+            self.peer_fault = true; // a link that is gone for good rules completion out
+        }
         // the suspension interval is delimited by the user's requests
         let was = (self.susp_s, self.susp_r);
         if was.0 || was.1 {
